@@ -83,3 +83,46 @@ func appsUnstakeLifecycle(c *Ctx, P string) []Obligation {
 			Barrier: []string{`^` + kAp + `SetApplication\(k, ctx, var:application\)`}, Target: TargetAnyReturn(), Why: "the zeroed record is stored"},
 	})
 }
+
+// queueWriteBack (C24, C21): removing one address from a completion-time slot of the unstaking queue writes
+// the shortened slot back, or deletes the slot when nothing is left.
+func queueWriteBack(c *Ctx, P string) []Obligation {
+	var out []Obligation
+	for _, q := range []struct{ fn, newv, del, set string }{
+		{"(x/apps/keeper.Keeper).deleteUnstakingApplication", "phi:newApplications", kAp + `deleteUnstakingApplications\(k, ctx, val\.UnstakingCompletionTime\)`, kAp + `setUnstakingApplications\(k, ctx, val\.UnstakingCompletionTime, phi:newApplications\)`},
+		{"(x/nodes/keeper.Keeper).deleteUnstakingValidator", "phi:newValidators", kN + `deleteUnstakingValidators\(k, ctx, val\.UnstakingCompletionTime\)`, kN + `setUnstakingValidators\(k, ctx, val\.UnstakingCompletionTime, phi:newValidators\)`},
+	} {
+		short := q.fn[len(q.fn)-len("deleteUnstakingApplication"):]
+		if q.fn[3] == 'n' {
+			short = "deleteUnstakingValidator"
+		}
+		atom := `^eq\(0, builtin\.len\(` + q.newv + `\)\)$`
+		out = append(out,
+			c.edgeMust(P, "queue."+short+".empty-slot-deleted", q.fn, atom, true, `^`+q.del, 1, "a slot left empty is deleted"),
+			c.edgeMust(P, "queue."+short+".shortened-slot-written-back", q.fn, atom, false, `^`+q.set, 1, "a slot with entries left is written back without the removed address"),
+		)
+	}
+	return out
+}
+
+// sweepsVisitEverything (C24, C32): the per-block sweeps run over everything that is due.
+func sweepsVisitEverything(c *Ctx, P string, fns ...string) []Obligation {
+	var out []Obligation
+	for _, f := range fns {
+		short := f[len(f)-20:]
+		if i := lastDot(f); i >= 0 {
+			short = f[i+1:]
+		}
+		out = append(out, c.loopsExitOnlyAtHeader(P, "sweep."+short+".visits-every-entry", f, "every entry that is due at this block is handled in this block"))
+	}
+	return out
+}
+
+func lastDot(s string) int {
+	for i := len(s) - 1; i >= 0; i-- {
+		if s[i] == '.' {
+			return i
+		}
+	}
+	return -1
+}
